@@ -1376,6 +1376,12 @@ func driveC04(c *h.Ctx) error {
 		it := g.tree(4, i%2 == 0)
 		c04CaseSkip(c, g, it, g.r.U64()>>12)
 	}
+	// (b'') random tree-level mutations of the writers' own output
+	for i := 0; i < c.Pick(250, 5000); i++ {
+		r := c.Rng.Fork(uint64(600000 + i))
+		g.r = r
+		c04CaseMutated(c, g, t, g.tree(2, i%2 == 0), r)
+	}
 	// (c) typed KMIP messages, (d) OASIS vectors (oracle on the implementation only)
 	c04Messages(c, g)
 	c04Vectors(c, g)
@@ -1839,6 +1845,233 @@ func c04AltOracle(c *h.Ctx, d c04Doc, doc []byte, o c04Out, cj map[string]any) {
 		}
 		if !inRange && o.Class == "ok" {
 			c.Fail("C04/json/interval-out-of-range-accepted", fmt.Sprintf("interval %s is accepted (%s) although it is not an unsigned 32-bit number of seconds", val.S, o), cj)
+		}
+	}
+}
+
+// ------------------------------------------------------------------ part (b''): random tree-level mutations of the writers' output
+
+func (j *c04J) text(sb *strings.Builder) {
+	switch j.K {
+	case 'n':
+		sb.WriteString("null")
+	case 'b':
+		sb.WriteString(fmt.Sprint(j.B))
+	case '#':
+		sb.WriteString(j.S)
+	case 's':
+		sb.WriteString(c04JSONStr(j.S))
+	case 'a':
+		sb.WriteString("[")
+		for i, v := range j.Arr {
+			if i > 0 {
+				sb.WriteString(",")
+			}
+			v.text(sb)
+		}
+		sb.WriteString("]")
+	case 'o':
+		sb.WriteString("{")
+		for i := range j.Keys {
+			if i > 0 {
+				sb.WriteString(",")
+			}
+			sb.WriteString(c04JSONStr(j.Keys[i]) + ":")
+			j.Vals[i].text(sb)
+		}
+		sb.WriteString("}")
+	}
+}
+
+func (j *c04J) walk(f func(*c04J)) {
+	f(j)
+	for _, v := range j.Arr {
+		v.walk(f)
+	}
+	for _, v := range j.Vals {
+		v.walk(f)
+	}
+}
+
+var c04MutVals = []string{"", "0", "-1", "1", "0x1", "0xFFFFFFFF", "0x80000000", "2147483648", "true", "false", "AES", "Sign Verify", "Sign|Verify", "00", "0G", "2001-01-01T00:00:00Z",
+	"0x3AFFF4417F", "Bogus", "9223372036854775808", "-9223372036854775809", " 7", "x y", "4503599627370496"}
+var c04MutTypes = []string{"Structure", "Integer", "LongInteger", "BigInteger", "Enumeration", "Boolean", "TextString", "ByteString", "DateTime", "Interval", "Foo", "", "integer"}
+
+func c04MutateXML(r *h.Rand, root *c04X) string {
+	var nodes [][2]*c04X
+	c04Walk(root, nil, func(n, p *c04X) { nodes = append(nodes, [2]*c04X{n, p}) })
+	pick := nodes[r.Intn(len(nodes))]
+	n, p := pick[0], pick[1]
+	setAttr := func(k, v string) {
+		for i, a := range n.Attrs {
+			if a[0] == k {
+				n.Attrs[i][1] = v
+				return
+			}
+		}
+		n.Attrs = append(n.Attrs, [2]string{k, v})
+	}
+	switch r.Intn(10) {
+	case 0:
+		n.Name = []string{"Bogus", "TTLV", "Name", "Attribute", "ttlv"}[r.Intn(5)]
+		return "rename"
+	case 1, 2:
+		setAttr("value", c04MutVals[r.Intn(len(c04MutVals))])
+		return "value"
+	case 3:
+		setAttr("type", c04MutTypes[r.Intn(len(c04MutTypes))])
+		return "type"
+	case 4:
+		if len(n.Attrs) > 0 {
+			i := r.Intn(len(n.Attrs))
+			n.Attrs = append(n.Attrs[:i:i], n.Attrs[i+1:]...)
+		}
+		return "drop-attr"
+	case 5:
+		n.Attrs = append(n.Attrs, [2]string{[]string{"value", "type", "tag"}[r.Intn(3)], c04MutVals[r.Intn(len(c04MutVals))]})
+		return "dup-attr"
+	case 6:
+		setAttr("tag", []string{"0x420008", "0x42000b", "0x", "Name", "0xzz", "", "0x-1", "0x54FFFF"}[r.Intn(8)])
+		return "tag-attr"
+	case 7:
+		if p != nil {
+			for i, k := range p.Kids {
+				if k == n {
+					p.Kids = append(p.Kids[:i:i], p.Kids[i+1:]...)
+					break
+				}
+			}
+		}
+		return "drop-elem"
+	case 8:
+		if p != nil {
+			p.Kids = append(p.Kids, n.clone())
+		} else {
+			n.Kids = append(n.Kids, &c04X{Name: "Name", Attrs: [][2]string{{"type", "TextString"}, {"value", "x"}}})
+		}
+		return "dup-elem"
+	default:
+		n.Kids = append(n.Kids, &c04X{Name: "BatchCount", Attrs: [][2]string{{"type", "Integer"}, {"value", "1"}}})
+		return "add-kid"
+	}
+}
+
+func c04MutateJSON(r *h.Rand, root *c04J) string {
+	var objs []*c04J
+	root.walk(func(n *c04J) {
+		if n.K == 'o' || n.K == 'a' {
+			objs = append(objs, n)
+		}
+	})
+	if len(objs) == 0 {
+		return "none"
+	}
+	n := objs[r.Intn(len(objs))]
+	lit := func() *c04J {
+		switch r.Intn(8) {
+		case 0:
+			return &c04J{K: 'n'}
+		case 1:
+			return &c04J{K: 'b', B: r.Bool()}
+		case 2:
+			return &c04J{K: '#', S: []string{"0", "-1", "1", "1.5", "1e3", "2147483648", "4294967296", "-9223372036854775808", "9223372036854775808", "4503599627370496"}[r.Intn(10)]}
+		case 3:
+			return &c04J{K: 'a'}
+		case 4:
+			return &c04J{K: 'o'}
+		case 5:
+			return &c04J{K: 'a', Arr: []*c04J{{K: '#', S: "1"}}}
+		default:
+			return &c04J{K: 's', S: c04MutVals[r.Intn(len(c04MutVals))]}
+		}
+	}
+	if n.K == 'a' {
+		switch {
+		case len(n.Arr) > 0 && r.Bool():
+			n.Arr[r.Intn(len(n.Arr))] = lit()
+			return "array-elem"
+		case len(n.Arr) > 0 && r.Bool():
+			i := r.Intn(len(n.Arr))
+			n.Arr = append(n.Arr[:i:i], n.Arr[i+1:]...)
+			return "array-drop"
+		default:
+			n.Arr = append(n.Arr, lit())
+			return "array-add"
+		}
+	}
+	if len(n.Keys) == 0 {
+		return "none"
+	}
+	i := r.Intn(len(n.Keys))
+	switch r.Intn(6) {
+	case 0, 1:
+		n.Vals[i] = lit()
+		return "member-value"
+	case 2:
+		n.Keys = append(n.Keys[:i:i], n.Keys[i+1:]...)
+		n.Vals = append(n.Vals[:i:i], n.Vals[i+1:]...)
+		return "member-drop"
+	case 3:
+		n.Keys = append(n.Keys, n.Keys[i])
+		n.Vals = append(n.Vals, lit())
+		return "member-dup"
+	case 4:
+		n.Keys[i] = []string{"Tag", "TYPE", "val", "tag", "type", "value"}[r.Intn(6)]
+		return "member-rename"
+	default:
+		if n.Keys[i] == "type" {
+			n.Vals[i] = &c04J{K: 's', S: c04MutTypes[r.Intn(len(c04MutTypes))]}
+			return "type"
+		}
+		if n.Keys[i] == "tag" {
+			n.Vals[i] = &c04J{K: 's', S: []string{"Bogus", "0x420008", "0x", "Name", "0xzz", "", "0x-1", "name"}[r.Intn(8)]}
+			return "tag"
+		}
+		n.Vals[i] = lit()
+		return "member-value"
+	}
+}
+
+// c04CaseMutated: the writers' output of a random item, mutated at tree level, read back with the
+// original script and as ttlv.Value; the model reads the same mutated tree.
+func c04CaseMutated(c *h.Ctx, g *c04Gen, t *c04Tables, it *c04Item, r *h.Rand) {
+	for _, format := range []string{"xml", "json"} {
+		if !it.representable(format) {
+			continue
+		}
+		doc, pan := c04Encode(format, it)
+		if pan != nil {
+			continue
+		}
+		var out string
+		kinds := ""
+		if format == "xml" {
+			roots, cut := c04ParseXML(doc)
+			if cut || len(roots) != 1 {
+				continue
+			}
+			for k := 1 + r.Intn(2); k > 0; k-- {
+				kinds += c04MutateXML(r, roots[0]) + " "
+			}
+			var sb strings.Builder
+			roots[0].xmlText(&sb)
+			out = sb.String()
+		} else {
+			jt, err := c04ParseJSON(doc)
+			if err != nil {
+				continue
+			}
+			for k := 1 + r.Intn(2); k > 0; k-- {
+				kinds += c04MutateJSON(r, jt) + " "
+			}
+			var sb strings.Builder
+			jt.text(&sb)
+			out = sb.String()
+		}
+		c.Count("b:mutation:" + strings.Fields(kinds + " none")[0])
+		c04CaseB(c, t, c04MkDoc(format, out, it, "mutated"), true)
+		if _, ok := c04ToValue(it); ok {
+			c04CaseB(c, t, c04MkDoc(format, out, nil, "mutated"), true)
 		}
 	}
 }
